@@ -16,6 +16,11 @@ FIXED = [
  ("C03", "read/mismatch", "fix: index validation rejects", "index file of a closed blob truncated at almost any length is accepted at start-up: keys silently NotFound or every read errors"),
  ("C15", "blobs_count/mismatch", "fix: HierarchicalFilters::len", "blobs_count counts empty slots after restore (2 with one blob file)"),
  ("C15", "disk_used/mismatch", "fix: disk_used counts", "disk_used omits an index file that exists while its index is in memory"),
+ ("C07", "harm/blob-id-reused", "fix: blob ids of quarantined", "id of a quarantined blob is reused for a new blob after a restart (a later quarantine would overwrite the saved file)"),
+ ("C06", "init/err", "fix: init starts a fresh", "init fails with Uninitialized when ignore_corrupted is set and every blob of the directory is corrupted"),
+ ("C16", "recovery_blob/stale-blob-offset", "fix: recovery_blob rewrites", "recovery_blob(skip=true) copies headers with their old blob_offset: records after the skipped one are unreadable by the storage"),
+ ("C12", "sync/unsynced-above-limit-at-idle", "fix: background sync re-checks", "a write finishing while the fsync task holds its in-progress flag is neither covered by that sync nor re-triggers one: bytes above the limit stay un-synced at idle"),
+ ("C12", "sync/unsynced-above-limit-at-idle", "fix: a sync only marks", "bytes of an append still in flight when sync_all runs are counted as synced (size is reserved before the write)"),
  ("C12", "sync/explicit-fsyncdata-noop", "fix: Storage::fsyncdata always", "explicit fsyncdata() issues no sync below the dirty-byte limit"),
 ]
 OPEN = [
